@@ -27,6 +27,11 @@ func Parse2(lookup ShortcodeToModule, pstr string) (*Path, error) {
 	if err := yyParse(l); err != 0 {
 		return nil, l.lastError
 	}
+	if l.lastError != nil {
+		// the lexer gave up on the rest of the text: what was read until then is not the
+		// expression that was written
+		return nil, l.lastError
+	}
 	p := l.stack.pop()
 	for p.Parent != nil {
 		p = p.Parent
